@@ -612,6 +612,10 @@ class Circuit(Function):
         if right_connect:
             if len(this_connectors) != len(set(this_connectors)):
                 raise CreateBlockError()
+            # a gate of `other` is written over the base input it replaces, so it can
+            # replace only one of them (a repeated pair used to be dropped silently)
+            if len(other_connectors) != len(set(other_connectors)):
+                raise CreateBlockError()
         else:
             if len(other_connectors) != len(set(other_connectors)):
                 raise CreateBlockError()
